@@ -18,7 +18,8 @@ import time
 VERIF = os.path.dirname(os.path.dirname(os.path.abspath(__file__)))
 REPO = os.environ.get("VERIF_REPO", "/repo")
 COQ = os.path.join(VERIF, "coq")
-OUT = os.path.join(VERIF, "out")
+OUT = os.environ.get("VERIF_OUTDIR") or os.path.join(VERIF, "out")  # VERIF_OUTDIR/VERIF_EVIDENCE_DIR: side runs (seeded changes) that must not disturb out/ and evidence/
+EVIDENCE = os.environ.get("VERIF_EVIDENCE_DIR") or os.path.join(VERIF, "evidence")
 HARNESS = os.path.join(VERIF, "harness")
 MODULE = "github.com/dadrus/heimdall"
 
@@ -53,8 +54,9 @@ def sh(cmd, cwd=None, env=None, timeout=None, stdin=None):
 
 class Lock:
     def __init__(self, name):
-        os.makedirs(OUT, exist_ok=True)
-        self.path = os.path.join(OUT, name)
+        d = os.path.join(VERIF, "out")  # always the shared directory: the lock protects coq/, which side runs share
+        os.makedirs(d, exist_ok=True)
+        self.path = os.path.join(d, name)
 
     def __enter__(self):
         self.f = open(self.path, "w")
@@ -331,7 +333,7 @@ class Report:
         self.violations.append((p, no_input))
 
     def finish(self, coverage, trusted_base, checker_cmd, assumptions):
-        os.makedirs(os.path.join(VERIF, "evidence"), exist_ok=True)
+        os.makedirs(EVIDENCE, exist_ok=True)
         obl = len(self.obligations)
         dis = sum(1 for _, ok in self.obligations if ok)
         cov = dict(coverage)
@@ -348,7 +350,7 @@ class Report:
             "coverage": cov, "assumptions": assumptions,
             "wall_s": round(time.time() - self.t0, 2), "violations": len(self.violations),
         }
-        with open(os.path.join(VERIF, "evidence", self.pid + ".json"), "w") as f:
+        with open(os.path.join(EVIDENCE, self.pid + ".json"), "w") as f:
             json.dump(ev, f, indent=1, default=str)
         kf = [k for k in known_findings().get("findings", []) if k["property"] == self.pid]
         for k in kf:
